@@ -88,11 +88,19 @@ async def calculate_in_subprocess(func: Callable[..., Union[T, Awaitable[T]]], *
     loop.add_reader(fd=rx.fileno(), callback=event.set)
 
     try:
-        if not rx.poll():  # do not use process.is_alive() as condition here
-            await event.wait()
-    finally:
-        loop.remove_reader(fd=rx.fileno())
-        event.clear()
+        try:
+            if not rx.poll():  # do not use process.is_alive() as condition here
+                await event.wait()
+        finally:
+            loop.remove_reader(fd=rx.fileno())
+            event.clear()
+    except BaseException:
+        # the awaiting task was cancelled (task.cancel(), asyncio.wait_for timeout, ...) while the child is still working:
+        # nobody will ever read its result, so do not leave the child process and the read end of the pipe behind
+        process.terminate()
+        process.join()
+        rx.close()
+        raise
 
     try:
         result = rx.recv()
